@@ -24,7 +24,7 @@ from .canon import canon_view as _canon_view
 
 def _cv(f, src):
     """canonical view of a tracking method: locals that only name an expression, private helpers and early returns are read through"""
-    return _canon_view(f, src, keep_lets={"builder", "join", "names", "operator"})
+    return _canon_view(f, src, keep_lets={"builder", "join", "names", "operator"}, iflet=True)
 
 
 LEVEL = "other"
@@ -79,9 +79,26 @@ def qcol(e):
     return None
 
 
+_LOCALS = {}  # immutable `let name = <expr>;` of the function being read (name -> init): a renamed column may be named once and used twice
+
+
+def _set_locals(f):
+    _LOCALS.clear()
+    for l in find(f.body, "let"):
+        if l["pat"]["k"] == "ident" and not l["pat"].get("mut") and l.get("init") is not None:
+            _LOCALS[l["pat"]["name"]] = l["init"]
+
+
 def fmt_side(e):
     """format!("_LEFT{}", PrivacyUnit::privacy_unit()) -> ('left','pu')"""
     e = strip_ref(e)
+    for _ in range(4):
+        while e["k"] == "mcall" and e["m"] in ("clone", "to_string", "to_owned", "as_str", "into") and not e["args"]:
+            e = strip_ref(e["recv"])
+        if e["k"] == "path" and len(e["segs"]) == 1 and e["segs"][0] in _LOCALS:
+            e = strip_ref(_LOCALS[e["segs"][0]])
+        else:
+            break
     if e["k"] == "macro" and e["name"] == "format" and e.get("args") and len(e["args"]) == 2:
         f = e["args"][0]
         if f["k"] == "lit" and f["t"] == "str":
@@ -146,6 +163,7 @@ def y1(rep, src):
         necessary="without the equality (or with left=left) a row of unit u is combined with rows of other units and still attributed to u",
     )
     f = _cv(src.one_fn(name="join", file=PUT, self_ty_re=r"^PrivacyUnitTracking"), src)
+    _set_locals(f)
     key = "PrivacyUnitTracking::join"
     chains = builder_chains(f.body, "join")
     if len(chains) != 1:
@@ -256,6 +274,8 @@ def strategy_arms(rep, rid, f, key):
                 rep.violation(rid, key + "@soft", "under Strategy::Soft the node is rewritten instead of refused", "src/%s:%d" % (PUT, a["l"]))
         elif pn.endswith("Strategy::Hard"):
             hard = a["body"]
+        elif a["pat"]["k"] == "wild" and a is ms[0]["arms"][-1] and any((path_of(x["pat"]) or "").endswith("Strategy::Soft") for x in ms[0]["arms"][:-1]) and hard is None:
+            hard = a["body"]  # `Soft => Err(..), _ => <rewrite>` (what `if let Strategy::Soft = self.strategy { return Err(..) }` reads as): the remaining strategy is Hard
         else:
             rep.undecidable(rid, key + "@strategy", "unexpected arm %s" % show(a["pat"]), "src/%s:%d" % (PUT, a["l"]))
     return hard
@@ -270,6 +290,7 @@ def y1b(rep, src):
     )
     for name, tracked in (("join_left_published", "right"), ("join_right_published", "left")):
         f = _cv(src.one_fn(name=name, file=PUT, self_ty_re=r"^PrivacyUnitTracking"), src)
+        _set_locals(f)
         key = "PrivacyUnitTracking::" + name
         ps = {p["pat"]["name"]: p["ty"] for p in f.params if not p.get("self") and p["pat"]["k"] == "ident"}
         pup = [n for n, t in ps.items() if "PupRelation" in t]
@@ -388,6 +409,13 @@ def y6(rep, src):
         rep.undecidable("Y6", key, "expected one Relation::set() chain", f.where())
         return
     _, ms = chains[0]
+    # the chain may continue on a local: `let builder = Relation::set()...; builder.left(l).right(r).build()`
+    locs = {l["pat"]["name"] for l in find(f.body, "let") if l["pat"]["k"] == "ident" and l.get("init") is not None and any(x is chains[0][0] for x in walk(l["init"]))}
+    for x in walk(f.body):
+        if x["k"] == "mcall":
+            r_, ms2 = chain(x)
+            if path_of(r_) in locs and len(ms2) > len([m for m in ms if m in ms2]):
+                ms = list(ms) + [m for m in ms2 if m not in ms]
     sides = {}
     for m in ms:
         if m["m"] in ("left", "right"):
@@ -553,13 +581,32 @@ def y8(rep, src):
         return
     lp = loops[0]
     sv = pat_binds(lp["pat"])
-    ifs = [n for n in walk(lp["body"]) if n["k"] == "if" and "Some(" in show(n["cond"], 0) and "last_step" in show(n["cond"], 0)]
-    if len(ifs) != 1 or not sv:
-        rep.undecidable("Y8", key, "expected `if let Some(last_step) = &mut last_step` in the loop", f.where())
+    # the branch taken when a step is pending: `if let Some(p) = &mut pending { .. }` or the `Some(p)` arm of `match &mut pending { Some(p) => .., None => .. }`
+    # (the pending variable is the Option<Step> local declared before the loop, whatever its name)
+    opt_locals = {l["pat"]["name"] for l in find(f.body, "let") if l["pat"]["k"] == "ident" and l["pat"].get("mut")} | {
+        l["pat"]["pat"]["name"] for l in find(f.body, "let") if l["pat"]["k"] == "typed" and l["pat"]["pat"]["k"] == "ident"
+    }
+
+    def scrut_local(e):
+        while e["k"] in ("ref", "paren") or (e["k"] == "unary" and e["op"].strip() in ("&", "&mut", "*")):
+            e = e["e"]
+        if e["k"] == "mcall" and e["m"] in ("as_mut", "as_ref", "take") and not e["args"]:
+            return scrut_local(e["recv"])
+        return path_of(e) if e["k"] == "path" and len(e["segs"]) == 1 else None
+
+    cands = []
+    for n in walk(lp["body"]):
+        if n["k"] == "if" and n["cond"]["k"] == "letcond" and n["cond"]["pat"]["k"] == "tuplestruct" and n["cond"]["pat"]["path"]["segs"][-1] == "Some" and scrut_local(n["cond"]["e"]) in opt_locals:
+            cands.append((n["then"], pat_binds(n["cond"]["pat"])))
+        if n["k"] == "match" and scrut_local(n["e"]) in opt_locals:
+            for a in n["arms"]:
+                if a["pat"]["k"] == "tuplestruct" and a["pat"]["path"]["segs"][-1] == "Some":
+                    cands.append((a["body"], pat_binds(a["pat"])))
+    if len(cands) != 1 or not sv or not cands[0][1]:
+        rep.undecidable("Y8", key, "expected one `Some(pending step)` branch on the pending Option<Step> in the loop, found %d" % len(cands), f.where())
         return
-    br = ifs[0]["then"]
-    pend = [b for b in pat_binds(ifs[0]["cond"]["pat"])] if ifs[0]["cond"].get("pat") else ["last_step"]
-    pend = pend[0] if pend else "last_step"
+    br = cands[0][0]
+    pend = cands[0][1][0]
     step = sv[0]
 
     def plain(e):
